@@ -40,30 +40,31 @@ namespace occa {
     memoryPoolRing.removeRef(memPool);
   }
 
+  namespace {
+    // Bytes covered by the union of the reservation ranges,
+    // each rounded out to the alignment (reservations are ordered by offset)
+    udim_t reservedBytes(const modeMemoryPool_t::reservationSet &reservations,
+                         const dim_t alignment) {
+      udim_t total = 0;
+      dim_t end = 0;
+      for (modeMemory_t* m : reservations) {
+        const dim_t lo = (m->offset / alignment) * alignment; //Round down to alignment
+        const dim_t hi = ((m->offset + m->size + alignment - 1)
+                          / alignment) * alignment; //Round up
+        if (hi <= end) continue;
+        total += hi - std::max(lo, end);
+        end = hi;
+      }
+      return total;
+    }
+  }
+
   void modeMemoryPool_t::addModeMemoryRef(modeMemory_t *mem) {
     modeMemoryRing.addRef(mem);
-    /*Find how much of this mem is a new reservation*/
-    dim_t lo = (mem->offset / alignment) * alignment; //Round down to alignment
-    dim_t hi = ((mem->offset + mem->size + alignment - 1)
-                / alignment) * alignment; //Round up
-    for (modeMemory_t* m : reservations) {
-      const dim_t mlo = (m->offset / alignment) * alignment;
-      const dim_t mhi = ((m->offset + m->size + alignment - 1)
-                        / alignment) * alignment;
-      if (mlo >= hi) break;
-      if (mhi <= lo) continue;
 
-      if (mlo <= lo && mhi >= hi) {
-        hi = lo;
-      } else {
-        hi = std::min(hi, mhi);
-        lo = std::max(lo, mlo);
-      }
-      if (lo == hi) break;
-    }
     /*Add this mem to the reservation list*/
     reservations.emplace(mem);
-    reserved += hi-lo;
+    reserved = reservedBytes(reservations, alignment);
   }
 
   void modeMemoryPool_t::removeModeMemoryRef(modeMemory_t *mem) {
@@ -72,27 +73,7 @@ namespace occa {
     /*Remove this mem from the reservation list*/
     auto pos = reservations.find(mem);
     reservations.erase(pos);
-
-    /*Find how much of this mem is removed from reserved space*/
-    dim_t lo = (mem->offset / alignment) * alignment; //Round down to alignment
-    dim_t hi = ((mem->offset + mem->size + alignment - 1)
-                / alignment) * alignment; //Round up
-    for (modeMemory_t* m : reservations) {
-      const dim_t mlo = (m->offset / alignment) * alignment;
-      const dim_t mhi = ((m->offset + m->size + alignment - 1)
-                        / alignment) * alignment;
-      if (mlo >= hi) break;
-      if (mhi <= lo) continue;
-
-      if (mlo <= lo && mhi >= hi) {
-        hi = lo;
-      } else {
-        hi = std::min(hi, mhi);
-        lo = std::max(lo, mlo);
-      }
-      if (lo == hi) break;
-    }
-    reserved -= hi-lo;
+    reserved = reservedBytes(reservations, alignment);
   }
 
   bool modeMemoryPool_t::needsFree() const {
